@@ -13,10 +13,12 @@ import (
 	"errors"
 	"fmt"
 	"sort"
+	"strings"
 
 	"google.golang.org/protobuf/types/known/structpb"
 	corev1 "k8s.io/api/core/v1"
 	kerrors "k8s.io/apimachinery/pkg/api/errors"
+	kmeta "k8s.io/apimachinery/pkg/api/meta"
 	metav1 "k8s.io/apimachinery/pkg/apis/meta/v1"
 	"k8s.io/apimachinery/pkg/apis/meta/v1/unstructured"
 	"k8s.io/apimachinery/pkg/runtime"
@@ -455,6 +457,27 @@ func (n xwRecordingNamer) GenerateName(ctx context.Context, cd resource.Object) 
 	return err
 }
 
+// xwServerError is the error an injected "fail" outcome returns: all of these are errors of
+// the request, not statements about the object (errClass maps every one of them to "other").
+func xwServerError(flavour int, c CallInfo) error {
+	pgk := schema.ParseGroupKind(c.GK)
+	switch flavour {
+	case 2:
+		return &kmeta.NoKindMatchError{GroupKind: pgk, SearchedVersions: []string{"v1"}}
+	case 3:
+		return kerrors.NewTimeoutError("simstore: injected timeout", 1)
+	case 4:
+		return kerrors.NewServiceUnavailable("simstore: injected unavailable")
+	case 5:
+		return kerrors.NewTooManyRequests("simstore: injected too many requests", 1)
+	case 6:
+		return &kmeta.NoResourceMatchError{PartialResource: schema.GroupVersionResource{Group: pgk.Group, Resource: strings.ToLower(pgk.Kind) + "s"}}
+	case 7:
+		return context.DeadlineExceeded
+	}
+	return nil // the generic internal server error
+}
+
 func xwOutcome(s string) Outcome {
 	switch s {
 	case "fail":
@@ -587,6 +610,13 @@ func (w *xwWorld) xwRunRound(mode string, rd *xwRound, extraCheck func()) xwRoun
 			}
 			return OK
 		}
+		// The model knows one "server error" outcome. The real run draws its class from the
+		// scenario (deterministically, so that a scenario replays): classes that the code under
+		// test must all treat alike - none of them means "the object does not exist".
+		flavour := (f.K*7 + len(rd.Desired)*3 + len(objs0)) % 8
+		st.FailErr = func(c CallInfo) error { return xwServerError(flavour, c) }
+	} else {
+		st.FailErr = nil
 	}
 	st.After = func(CallInfo) {
 		w.checkInstant()
